@@ -361,9 +361,12 @@ pub fn run(tier: &str) -> i32 {
                         stop.unwrap_or(0).into(),
                         step.unwrap_or(0).into(),
                     ];
-                    let got = call(&fns.shapes[si], args.clone());
                     let (la, lb, lc) = (start.map(int_lit), stop.map(int_lit), step.map(int_lit));
                     let text = shape_text(&subject_lit, la.as_deref(), lb.as_deref(), lc.as_deref(), shape);
+                    // noted for the supervisor: should this case kill the process, it is found again
+                    core::journal(|| json!({"kind": "program", "stdlib": true, "text": format!("f := (s: [any] | string, a: int, b: int, c: int) -> any {{ return {} }}; f({subject_lit}, {}, {}, {})", shape_text("s", Some("a"), Some("b"), Some("c"), shape), int_lit(start.unwrap_or(0)), int_lit(stop.unwrap_or(0)), int_lit(step.unwrap_or(0)))}).to_string());
+                    let got = call(&fns.shapes[si], args.clone());
+                    core::journal(|| json!({"kind": "program", "stdlib": true, "text": text}).to_string());
                     let (got_lit, st) = literal(interp, &text);
                     // run-time subject (static type: the union of both kinds), constant bounds
                     let mixed_text = format!("f := (s: [any] | string) -> any {{ return {} }}", shape_text("s", la.as_deref(), lb.as_deref(), lc.as_deref(), shape));
